@@ -135,6 +135,15 @@ CHECKS = {
             "command line re-runs its command); failing commands stop dependents and are retried.",
             "Outputs are deleted but never tampered with (Ninja's newer-than model); order-only inputs are not read by commands; "
             "logical clock for mtimes.", "DESIGN 2/C18"),
+    "C04": ("fault_enumeration", "hypothesis+enginesim+killshim",
+            "fault enumeration: SIGKILL before EVERY database/journal system call of a generated victim build (LD_PRELOAD shim), then snapshot-consistency and convergence oracles in a fresh process",
+            "For every generated history the victim process is killed before each of its T database/journal system calls "
+            "(stride-sampled above the cap, counted); after each kill the file opens, passes integrity_check, its rows equal "
+            "the ledger before the build or after the victim's processed completions (never a mixture, epochs bounded by the "
+            "stored iteration, all dependency ids resolve), and the remaining history converges to clean values although "
+            "artifacts were already rewritten.",
+            "Process death only (no power loss); exhaustive over syscall boundaries of the generated histories, not over all histories.",
+            "DESIGN 2/C04"),
 }
 
 NOT_APPLICABLE = {
@@ -190,7 +199,7 @@ def main():
             {"name": "libfuzzer", "path": "fuzz/ + pbt/c19.py", "serves_properties": ["C19"],
              "kind_free_text": "five libFuzzer targets (clang-14 -fsanitize=fuzzer,address,undefined) with semantic oracles inside the targets"},
             {"name": "hypothesis+enginesim", "path": "pbt/ + harness/enginesim.cpp",
-             "serves_properties": [p for p in sorted(CHECKS) if CHECKS[p][1] == "hypothesis+enginesim"],
+             "serves_properties": [p for p in sorted(CHECKS) if "enginesim" in CHECKS[p][1]],
              "kind_free_text": "Hypothesis 6.168 stateful-style history generation driving a C++ script executor "
                                "over core::BuildEngine as a sub-process per case; oracles in Python"},
         ],
